@@ -1,5 +1,7 @@
 //! vpcheck: bounded exhaustive checks of the wow_srp properties. See /verif/DESIGN.md.
 
+mod c07_c08;
+mod common;
 mod selftest;
 
 use mc::report::Tier;
@@ -35,9 +37,15 @@ fn main() {
                 _ => Tier::Quick,
             };
             let seed: u64 = std::env::var("VERIF_SEED").ok().and_then(|s| s.parse().ok()).unwrap_or(0);
-            let _ = (tier, seed);
-            eprintln!("unknown property {}", args[2]);
-            std::process::exit(2);
+            let code = match args[2].as_str() {
+                "C07" => c07_c08::run::<c07_c08::Vanilla>(tier, seed),
+                "C08" => c07_c08::run::<c07_c08::Tbc>(tier, seed),
+                other => {
+                    eprintln!("unknown property {other}");
+                    2
+                }
+            };
+            std::process::exit(code);
         }
         _ => usage(),
     }
